@@ -16,18 +16,21 @@ WEIGHTS = {"?&!>": 40, "?>": 6, "?|>": 6, "^^>": 5, "<->": 3, "=>[]": 2, ">@>": 
 
 
 def weight_of(chain, input_expr=""):
-    w = 1
+    w = 1.0
     varlen = False      # an iterator whose length depends on the input
+    mult = 1.0          # every chained iterator adds elements to loop over
     for st in chain:
         if input_expr.startswith("[") or st.op in ("?&!>", "<->", "=>[]"):
-            w += WEIGHTS.get(st.op, 0)
+            w += WEIGHTS.get(st.op, 0) * mult
         if st.op in ("?&!>", "<->", "=>[]") and varlen:
             w += 30     # Vec of symbolic length: growth paths + element-wise comparison
         if st.op in ("?>", "?|>", "^^>"):
             varlen = True
+        if st.op == ">@>":
+            mult += 0.7
         if st.inner is not None:
             w += weight_of(st.inner, input_expr)
-    return w
+    return int(round(w))
 
 
 def build(pid, macro, ctx, input_expr, chain, final_t, second_branch=False, group="", extra_desc=None, heavy=False, unwind=12, tok=False, prop="C01"):
@@ -76,7 +79,7 @@ def build(pid, macro, ctx, input_expr, chain, final_t, second_branch=False, grou
     if extra_desc:
         desc.update(extra_desc)
     return Program(pid, text, "    " + "\n    ".join(l for l in L if l), desc=desc, group=group, role=dict(kind=macro), unwind=unwind, heavy=heavy,
-                   weight=weight_of(chain, input_expr))
+                   weight=weight_of(chain, input_expr) * (3 if (is_spawn and second_branch) else 1))
 
 
 def typeable_inputs(opname, ctx_rnd):
